@@ -188,7 +188,11 @@ def check_space(ctx, meshname, mesh, grid, spec, deep=True):
 
     # ---- conformity ------------------------------------------------------------------
     ue = R.undirected_edges(se)
-    nm = np.asarray(space.normal_multipliers)
+    # effective orientation flags from the reference (spec + domain indices), not from the space under test: barycentric element 6e+j
+    # belongs to coarse element e
+    flagged = set(int(x) for x in (spec.get("swapped") or ()))
+    coarse_flag = np.array([-1 if int(dd) in flagged else 1 for dd in mesh[2]])
+    nm = np.repeat(coarse_flag, 6) if se.shape[1] == 6 * mesh[1].shape[1] and kind in SP.BARY_KINDS else coarse_flag
     maxjump = 0.0
     for keyedge, lst in ue.items():
         nb = [(t, li) for t, li in lst if sup[t]]
@@ -445,7 +449,10 @@ def plan(ctx):
               ("gluedtets", ["DP0", "DP1", "P1", "RWG", "SNC"], True, [()]),
               ("tet", ALL_KINDS, True, [(), (1,)]), ("octa", ALL_KINDS, False, [(), (2,)]),
               ("screen2x2", ALL_KINDS, False, [()]), ("cube12", ALL_KINDS, False, [()]),
-              ("nested", ["P1", "RWG", "SNC", "BC", "RBC", "DUAL0"], False, [(5,)]), ("torus18", ALL_KINDS, False, [()])]
+              ("nested", ["P1", "RWG", "SNC", "BC", "RBC", "DUAL0"], False, [(5,)]), ("torus18", ALL_KINDS, False, [()]),
+              # a domain stored with reversed orientation and repaired through swapped_normals: the effective orientation is consistent,
+              # so BC/RBC accept the grid and the normal multipliers of the barycentric elements matter
+              ("tet~1", ["RWG", "SNC", "BC", "RBC", "DUAL0", "DUAL1"], False, [(1,)]), ("octa~2", ["SNC", "BC", "RBC"], False, [(2,)])]
     else:
         P += [("tri1", ["DP0", "DP1", "P1", "RWG", "SNC"], True, [()]), ("edge2", ALL_KINDS, True, [(), (1,)]),
               ("bow2", ["DP0", "DP1", "P1", "RWG", "SNC"], True, [(), (1,)]),
@@ -456,7 +463,9 @@ def plan(ctx):
               ("screen2x2", ALL_KINDS, True, [()]), ("screen3x3", ALL_KINDS, False, [(), (1,)]),
               ("cube12", ALL_KINDS, False, [(), (3,)]), ("twotet", ALL_KINDS, False, [(), (2, 3)]),
               ("nested", ALL_KINDS, False, [(), (5,)]), ("torus18", ALL_KINDS, False, [(), (1,)]),
-              ("lshape28", ALL_KINDS, False, [()])]
+              ("lshape28", ALL_KINDS, False, [()]),
+              ("tet~1", ALL_KINDS, True, [(1,)]), ("octa~2", ALL_KINDS, True, [(2,)]), ("cube12~3", ALL_KINDS, False, [(3,)]),
+              ("nested~5", ALL_KINDS, False, [(5,)]), ("screen3x3~1", ALL_KINDS, False, [(1,)])]
     return P
 
 
